@@ -96,16 +96,22 @@ Proof.
   intros [proto name pkt] rest (Hp & Hn & Hk).
   cbn [dy_proto dy_name dy_pkt] in *.
   unfold ps_dyn_dec, ps_dyn_enc. cbn [dy_proto dy_name dy_pkt].
-  rewrite <- !app_assoc. unfold PS_MAX in *.
+  rewrite <- !app_assoc. unfold PS_MAX in *. pose proof (len_nonneg name) as Hn0.
   rewrite (ps_item_app PS_PROTO proto) by (assumption || reflexivity).
   rewrite (ps_item_app PS_LEN (ps_enc_size (len name))) by (apply ps_len_enc_size || reflexivity).
   rewrite ps_dec_enc_size by lia.
   rewrite ps_size_ok_true by (unfold PS_MAX; lia). cbn [negb].
-  rewrite (ps_item_app (len name) name) by (reflexivity || lia).
-  rewrite (ps_item_app PS_LEN (ps_enc_size (len pkt))) by (apply ps_len_enc_size || reflexivity).
-  rewrite ps_dec_enc_size by lia.
-  rewrite ps_size_ok_true by (unfold PS_MAX; lia). cbn [negb].
-  rewrite (ps_item_app (len pkt) pkt) by (reflexivity || lia). reflexivity.
+  destruct (Z.eqb_spec (len name) 0) as [E|E].
+  - destruct name; [|rewrite len_cons in E; pose proof (len_nonneg name); lia]. cbn [app].
+    rewrite (ps_item_app PS_LEN (ps_enc_size (len pkt))) by (apply ps_len_enc_size || reflexivity).
+    rewrite ps_dec_enc_size by lia.
+    rewrite ps_size_ok_true by (unfold PS_MAX; lia). cbn [negb].
+    rewrite (ps_item_app (len pkt) pkt) by (reflexivity || lia). reflexivity.
+  - rewrite (ps_item_app (len name) name) by (reflexivity || lia).
+    rewrite (ps_item_app PS_LEN (ps_enc_size (len pkt))) by (apply ps_len_enc_size || reflexivity).
+    rewrite ps_dec_enc_size by lia.
+    rewrite ps_size_ok_true by (unfold PS_MAX; lia). cbn [negb].
+    rewrite (ps_item_app (len pkt) pkt) by (reflexivity || lia). reflexivity.
 Qed.
 
 (* a whole file: the copy loops and the loaders see exactly the records that were written *)
@@ -134,20 +140,10 @@ Proof.
     f_equal. apply IH; try assumption. cbn in Hf. lia.
 Qed.
 
-(* the two boundary facts behind the hypotheses of ps_obs_wf / ps_dyn_wf: an empty packet or
-   name cannot be read back (fread(p, 0, 1, f) returns 0), and nothing above 0x10000 is accepted *)
-Lemma ps_dyn_empty_name_unreadable : forall proto pkt rest,
-  len proto = PS_PROTO ->
-  ps_dyn_dec (ps_dyn_enc (mkDyn proto [] pkt) ++ rest) = None.
-Proof.
-  intros proto pkt rest Hp. unfold ps_dyn_dec, ps_dyn_enc. cbn [dy_proto dy_name dy_pkt].
-  rewrite <- !app_assoc.
-  rewrite (ps_item_app PS_PROTO proto) by (assumption || reflexivity).
-  rewrite (ps_item_app PS_LEN (ps_enc_size (len (@nil Z)))) by (apply ps_len_enc_size || reflexivity).
-  change (len (@nil Z)) with 0.
-  rewrite ps_dec_enc_size by lia. cbn [ps_size_ok negb Z.leb Z.compare andb PS_MAX].
-  unfold ps_item at 1. cbn [Z.ltb Z.compare andb]. reflexivity.
-Qed.
+(* why ps_obs_wf / ps_dyn_wf ask for non-empty packets: an item of 0 bytes cannot be read back
+   (fread(p, 0, 1, f) returns 0) *)
+Lemma ps_item_zero : forall l, ps_item 0 l = None.
+Proof. intro l. unfold ps_item. reflexivity. Qed.
 
 (* ------------------------------------------------------------------ the text format *)
 Definition ps_digit (b : Z) : Prop := 48 <= b <= 57.
